@@ -714,6 +714,11 @@ Proof.
   destruct h; reflexivity.
 Qed.
 
+Lemma push0_h sid t i : push batch0 (sid, t, VH i) = mkBatch [] [(sid, t, VH i)] [].
+Proof. unfold push. cbn. destruct (i <? 0); reflexivity. Qed.
+Lemma push0_fh sid t i : push batch0 (sid, t, VFH i) = mkBatch [] [] [(sid, t, VFH i)].
+Proof. unfold push. cbn. destruct (i <? 0); reflexivity. Qed.
+
 Theorem exact_dup_commit c sn h sid t v :
   head_wf h -> s_last (h_series h sid) = Some (t, v) -> sn_minValid sn <= t ->
   head_eq (commit c h (appender_of sn [(sid, t, v)])) h.
@@ -732,8 +737,10 @@ Proof.
     unfold commit, appender_of. cbn -[commit_plain acc0].
     unfold commit_float. cbn [e_sid e_t e_val fst snd]. rewrite El.
     destruct (b =? staleBits); rewrite Hplain; cbn -[acc0]; apply Hres; reflexivity.
-  - unfold commit, appender_of. cbn -[commit_plain acc0]. rewrite Hplain. apply Hres. reflexivity.
-  - unfold commit, appender_of. cbn -[commit_plain acc0]. rewrite Hplain. apply Hres. reflexivity.
+  - unfold commit, appender_of, fresh_appender. cbn -[commit_plain acc0 push].
+    rewrite push0_h. cbn -[commit_plain acc0]. rewrite Hplain. apply Hres. reflexivity.
+  - unfold commit, appender_of, fresh_appender. cbn -[commit_plain acc0 push].
+    rewrite push0_fh. cbn -[commit_plain acc0]. rewrite Hplain. apply Hres. reflexivity.
 Qed.
 
 (* ------------------------------------------------------------------ *)
@@ -769,7 +776,7 @@ Proof.
   destruct ((sn_oooWin sn =? 0) && (t <? sn_minValid sn)).
   { intros E. inversion E; subst. split; [exact Hs|]. split; [intros _; auto|intros; discriminate]. }
   set (v' := if is_stale_float v then match lookup_type (a_types a1) sid with
-                                      | Some THist => VH 0 | Some TFHist => VFH 0 | _ => v end else v).
+                                      | Some THist | Some TCHist => VH 0 | Some TFHist | Some TCFHist => VFH 0 | _ => v end else v).
   assert (Hd : derived (sid, t, v') (sid, t, v)).
   { unfold derived, v'. cbn. repeat split.
     destruct (is_stale_float v) eqn:Es; [|left; reflexivity].
@@ -869,16 +876,13 @@ Section OnlyAccepted.
           destruct Hd as (Hs & Ht & Hv). unfold derived. cbn [e_sid e_t e_val fst snd].
           repeat split; auto. right. split; [|exact Hw].
           destruct Hv as [Hv|[Hv _]]; [rewrite <- Hv; exact Hst|exact Hv]. }
-        destruct conv as [[| |]|] eqn:Ec.
-        + eexists _, _, _, _. split; [reflexivity|]. repeat split; auto.
-          apply Forall_app. split; [exact Hfh|].
-          constructor; [|constructor]. apply Hnew; [auto|congruence].
-        + eexists _, _, _, _. split; [reflexivity|]. repeat split; auto.
-          apply Forall_app. split; [exact Hh|].
-          constructor; [|constructor]. apply Hnew; [auto|congruence].
-        + eexists _, _, _, _. split; [reflexivity|]. repeat split; auto.
-          apply Forall_app. split; [exact Hfh|].
-          constructor; [|constructor]. apply Hnew; [auto|congruence].
+        assert (Hfh' : conv <> None -> all_derived (fhs ++ [(e_sid e', e_t e', VFH 0)])).
+        { intros Hc. apply Forall_app. split; [exact Hfh|]. constructor; [|constructor]. apply Hnew; auto. }
+        assert (Hh' : conv <> None -> all_derived (hs ++ [(e_sid e', e_t e', VH 0)])).
+        { intros Hc. apply Forall_app. split; [exact Hh|]. constructor; [|constructor]. apply Hnew; auto. }
+        destruct conv as [[| | | |]|] eqn:Ec.
+        1-5: eexists _, _, _, _; (split; [reflexivity|]); (split; [exact Hg|]);
+             split; first [exact Hh | exact Hfh | apply Hh'; congruence | apply Hfh'; congruence].
         + pose proof (commit_plain_good m ac e' Hg (ex_intro _ e (conj He Hd))) as Hg'.
           destruct (commit_plain cap sn (m, ac) e') as [m' ac'].
           eexists _, _, _, _. split; [reflexivity|]. repeat split; auto. }
